@@ -171,3 +171,34 @@ Proof.
     + intros [Hy|Hy]; [|contradiction]. subst. apply H2. eapply nth_error_In; eauto.
     + intros x Hx. split; (intros [Hi|Hi]; [left; exact Hi|right; apply (A3 x Hx); exact Hi]).
 Qed.
+
+Lemma NoDup_snoc {A} (l : list A) x : NoDup l -> ~ In x l -> NoDup (l ++ [x]).
+Proof.
+  induction l as [|y r IH]; intros Hnd Hx; cbn.
+  - constructor; [intros []|constructor].
+  - inversion Hnd; subst. constructor.
+    + rewrite in_app_iff. cbn. intros [H|[H|[]]]; [contradiction|]. apply Hx. left. symmetry; exact H.
+    + apply IH; auto. intros H. apply Hx. right. exact H.
+Qed.
+
+Lemma NoDup_app_r {A} (l l' : list A) : NoDup (l ++ l') -> NoDup l'.
+Proof. induction l as [|x l IH]; cbn; intros H; [exact H|]. inversion H; subst. auto. Qed.
+
+Lemma NoDup_app_l {A} (l l' : list A) : NoDup (l ++ l') -> NoDup l.
+Proof.
+  induction l as [|x l IH]; cbn; intros H; [constructor|]. inversion H; subst. constructor; auto.
+  intros Hx. apply H2. apply in_or_app. left; exact Hx.
+Qed.
+
+Lemma NoDup_app_disj {A} (l l' : list A) x : NoDup (l ++ l') -> In x l -> In x l' -> False.
+Proof.
+  induction l as [|y l IH]; cbn; intros H H1 H2; [contradiction|]. inversion H; subst.
+  destruct H1 as [->|H1]; [apply H4; apply in_or_app; right; exact H2|eauto].
+Qed.
+
+Lemma count_pos_ex N f : (1 <= count N f)%nat -> exists t, (t < N)%nat /\ f t = true.
+Proof.
+  induction N as [|k IH]; cbn; intros H; [lia|]. destruct (f k) eqn:E.
+  - exists k. split; [lia|exact E].
+  - destruct (IH H) as (t & Ht & Hf). exists t. split; [lia|exact Hf].
+Qed.
